@@ -40,19 +40,40 @@ fn single(ty: &str, atom: u64) -> char {
     char::from_u32(atoms(ty)[atom as usize - 1][0].0).unwrap()
 }
 
-fn operand(ty: &str, o: &Value) -> String {
+/// `k` numbers the case: value references are named after it (alv<k>lo / alv<k>hi)
+fn operand(ty: &str, o: &Value, k: usize) -> String {
+    let q = |f: &str| format!("\"{}\"", single(ty, o[f].as_u64().unwrap()));
     match o["k"].as_str().unwrap() {
         "str" => format!("\"{}\"", o["chars"].as_array().unwrap().iter().map(|a| single(ty, a.as_u64().unwrap())).collect::<String>()),
-        "range" => format!("\"{}\"..\"{}\"", single(ty, o["lo"].as_u64().unwrap()), single(ty, o["hi"].as_u64().unwrap())),
+        "range" => format!("{}..{}", q("lo"), q("hi")),
+        "range_min" => format!("MIN..{}", q("hi")),
+        "range_max" => format!("{}..MAX", q("lo")),
+        "range_vlo" => format!("alv{k}lo..{}", q("hi")),
+        "range_vhi" => format!("{}..alv{k}hi", q("lo")),
+        "range_vlo_max" => format!("alv{k}lo..MAX"),
+        "range_min_vhi" => format!("MIN..alv{k}hi"),
         _ => format!("Incl{}", ty.replace("/hi", "hi")),
     }
+}
+
+/// the value assignments an operand refers to
+fn operand_values(ty: &str, base_ty: &str, o: &Value, k: usize) -> String {
+    let mut s = String::new();
+    let kind = o["k"].as_str().unwrap();
+    if kind == "range_vlo" || kind == "range_vlo_max" {
+        s.push_str(&format!("alv{k}lo {base_ty} ::= \"{}\"\n", single(ty, o["lo"].as_u64().unwrap())));
+    }
+    if kind == "range_vhi" || kind == "range_min_vhi" {
+        s.push_str(&format!("alv{k}hi {base_ty} ::= \"{}\"\n", single(ty, o["hi"].as_u64().unwrap())));
+    }
+    s
 }
 
 /// name of the atom table of a case
 fn table(c: &Value) -> String {
     let ty = c["ty"].as_str().unwrap();
     let os = c["os"].as_array().unwrap();
-    let huge_span = |o: &Value| o["k"] == "range" && o["hi"] == 8 && o["lo"] != 8;
+    let huge_span = |o: &Value| o["k"].as_str().unwrap_or("").starts_with("range") && o["hi"].as_u64().unwrap_or(0) >= 8 && o["lo"] != 8;
     if ty == "BMPString" && os.len() == 1 && !huge_span(&os[0]) {
         "BMPString/hi".into()
     } else {
@@ -65,14 +86,15 @@ fn render(k: usize, c: &Value) -> String {
     let tb = table(c);
     let os = c["os"].as_array().unwrap();
     let ps = c["ps"].as_array().unwrap();
-    let mut e = operand(&tb, &os[0]);
+    let mut e = operand(&tb, &os[0], k);
+    let values: String = os.iter().map(|o| operand_values(&tb, ty, o, k)).collect();
     for (i, p) in ps.iter().enumerate() {
         let op = match p.as_str().unwrap() {
             "u" => "|",
             "i" => "^",
             _ => "EXCEPT",
         };
-        e = format!("{e} {op} {}", operand(&tb, &os[i + 1]));
+        e = format!("{e} {op} {}", operand(&tb, &os[i + 1], k));
     }
     let from = format!("FROM ({e})");
     let cs = match c["sizepos"].as_str().unwrap() {
@@ -84,9 +106,9 @@ fn render(k: usize, c: &Value) -> String {
         _ => format!("({from}) (SIZE (1..4))"),
     };
     if c["pos"] == "component" {
-        format!("Al{k} ::= SEQUENCE {{ f {ty} {cs} }}")
+        format!("{values}Al{k} ::= SEQUENCE {{ f {ty} {cs} }}")
     } else {
-        format!("Al{k} ::= {ty} {cs}")
+        format!("{values}Al{k} ::= {ty} {cs}")
     }
 }
 
@@ -125,6 +147,8 @@ fn observe(k: usize, c: &Value, text: &str, o: &run::Outcome, krate: &rsproj::RC
     ev["asn"] = json!(text);
     ev["status"] = json!(o.status);
     ev["detail"] = json!("");
+    // atoms that hold no character in this type (PrintableString has nothing above 'z'): they are neither allowed nor covered
+    ev["empty"] = json!(atoms(ty).iter().enumerate().filter(|(_, a)| a.is_empty()).map(|(i, _)| i + 1).collect::<Vec<_>>());
     ev["has_from"] = json!(false);
     ev["has_size"] = json!(false);
     ev["obs"] = json!([]);
